@@ -119,6 +119,12 @@ def pass_steps():
         a16.visit_var(E.BasicVar("A$", True))
         got16 = [l.basic09_text(0) for l in a16.allocation_lines]
         res.append(ob("steps/StrVarAllocator declares at sizes below 32 too", got16 == ["DIM A$:STRING[16]"], ["DIM A$:STRING[16]"], got16))
+        for big in (255, 256, 300, 1000, 32766):
+            ab = V.StrVarAllocatorVisitor(default_str_storage=big, dimmed_var_names=set())
+            ab.visit_var(E.BasicVar("A$", True))
+            ab.visit_var(E.BasicVar("tmp_1$", True))
+            gotb = [l.basic09_text(0) for l in ab.allocation_lines]
+            res.append(ob("steps/StrVarAllocator declares the requested size %d" % big, gotb == ["DIM A$:STRING[%d]" % big, "DIM tmp_1$:STRING[%d]" % big], "STRING[%d]" % big, gotb))
         d = V.DeclareImplicitArraysVisitor(dimmed_var_names={"arr_K"}, initialize_vars=False)
         for nm in ("K", "J", "J", "P$"):
             d.visit_array_ref(aref(nm, (1,)))
